@@ -403,7 +403,6 @@ static int do_next(cron_expr* expr, struct tm* calendar, unsigned int dot) {
     int* resets = NULL;
     int* empty_list = NULL;
     unsigned int second = 0;
-    unsigned int update_second = 0;
     unsigned int minute = 0;
     unsigned int update_minute = 0;
     unsigned int hour = 0;
@@ -425,7 +424,7 @@ static int do_next(cron_expr* expr, struct tm* calendar, unsigned int dot) {
     }
 
     second = calendar->tm_sec;
-    update_second = find_next(expr->seconds, CRON_MAX_SECONDS, second, calendar, CRON_CF_SECOND, CRON_CF_MINUTE, empty_list, &res);
+    find_next(expr->seconds, CRON_MAX_SECONDS, second, calendar, CRON_CF_SECOND, CRON_CF_MINUTE, empty_list, &res);
     if (0 != res) goto return_result;
     /* the seconds are a lower order of every other field: whenever a higher field moves forward
        they must restart from their first allowed value, also when they were advanced just above */
